@@ -109,7 +109,16 @@ mut("c14_hash_order_output", "C14", "cij/core/calculator.py",
     "        for key in sorted(self.modulus_keys, key=lambda k: hash(str(k))):\n            for i, j in set(itertools.permutations(key.voigt, 2)):\n                elastic_moduli[:, :, i-1, j-1] += self.modulus_adiabatic[key] / (1 if i == j else 1)\n",
     expect="either", note="accumulation order depends on the string hash; visible only if rounding differs")
 
+mut("c14_v2p_cache_by_id", "C14", "cij/core/calculator.py",
+    "    def __getitem__(self, key: str) -> numpy.ndarray:\n        return self.v2p(self.modulus[key])\n",
+    "    def __getitem__(self, key: str) -> numpy.ndarray:\n        k = (id(self.modulus), str(key))\n        if k not in _V2P_CACHE:\n            _V2P_CACHE[k] = self.v2p(self.modulus[key])\n        return _V2P_CACHE[k]\n",
+    note="module-level cache keyed by id(): stale values are served once a dropped calculator's id is re-used (calc.drop, then another client's calc.new)")
+
 # ---- C15 -------------------------------------------------------------------------------------
+mut("c15_outdir_frozen_at_init", "C15", "cij/core/calculator.py",
+    "        self._load(config_fname)\n        self._apply_elastic_constants_symmetry()\n",
+    "        self._outdir = Path.cwd()\n        self._load(config_fname)\n        self._apply_elastic_constants_symmetry()\n",
+    note="output tables go to the directory the calculator was constructed in, not the current one: only env.chdir between construction and writing sees it")
 mut("c15_cij_s_writes_isothermal", "C15", "cij/data/output/writer_rules.yml",
     "  unit: \"GPa\"\n  prop: modulus_adiabatic\n", "  unit: \"GPa\"\n  prop: modulus_isothermal\n")
 mut("c15_unit_kbar", "C15", "cij/data/output/writer_rules.yml",
@@ -176,6 +185,9 @@ mut("c19_geotherm_kx1", "C19", "cij/cli/geotherm.py",
     "    return RectBivariateSpline(x, y, z)\n", "    return RectBivariateSpline(x, y, z, kx=1, ky=1)\n", note="bilinear: exact at nodes, wrong off-node on bicubic stub tables")
 
 EXTRA = {
+    "c14_v2p_cache_by_id": ("cij/core/calculator.py", "logger = logging.getLogger(__name__)\n", "logger = logging.getLogger(__name__)\n_V2P_CACHE = {}\n"),
+    "c15_outdir_frozen_at_init": [("cij/core/calculator.py", "        save_x_tv(value, self.t_array, v_array, self.t_array, fname)\n", "        save_x_tv(value, self.t_array, v_array, self.t_array, str(self.calculator._outdir / fname))\n"),
+                                  ("cij/core/calculator.py", "        save_x_tp(value, self.t_array, p_array, p_array, fname)\n", "        save_x_tp(value, self.t_array, p_array, p_array, str(self.calculator._outdir / fname))\n")],
     "c14_memo_interpolate_modes": ("cij/core/calculator.py", "logger = logging.getLogger(__name__)\n", "logger = logging.getLogger(__name__)\n_MEMO = {}\n"),
     "c14_results_singleton": ("cij/core/tasks.py", "class PhononContributionTask:\n", "_ISO = PhononContributionTaskResults()\n_AD = PhononContributionTaskResults()\n\nclass PhononContributionTask:\n"),
     "c14_warn_once_flag": ("cij/core/calculator.py", "logger = logging.getLogger(__name__)\n", "logger = logging.getLogger(__name__)\n_FILLED_ONCE = False\n"),
@@ -208,11 +220,12 @@ def main():
                 continue
             open(p, "w").write(src.replace(m["old"], m["new"], 1))
             if m["name"] in EXTRA:
-                ep, eo, en = EXTRA[m["name"]]
-                q = os.path.join(scratch, ep)
-                s2 = open(q).read()
-                assert eo in s2, m["name"]
-                open(q, "w").write(s2.replace(eo, en, 1))
+                ex = EXTRA[m["name"]]
+                for ep, eo, en in (ex if isinstance(ex, list) else [ex]):
+                    q = os.path.join(scratch, ep)
+                    s2 = open(q).read()
+                    assert eo in s2, m["name"]
+                    open(q, "w").write(s2.replace(eo, en, 1))
             diff = sh(f"git -C {scratch} diff").stdout
             open(os.path.join(VERIF, "mutants", m["name"] + ".patch"), "w").write(diff)
             base_ok = None
